@@ -6,7 +6,9 @@ from vlib.core import HarnessError
 LEVEL = "exploration"
 RULE = (
     "Hypothesis draws a raw requestor script (associate, 0..2 valid DIMSE requests C-ECHO/C-STORE/C-FIND, how many responses it reads "
-    "before sending A-RELEASE-RQ - i.e. before, between and during the yields of the acceptor's handler), the acceptor handlers' result "
+    "before sending A-RELEASE-RQ - i.e. before, between and during the yields of the acceptor's handler; one case in four ends with a C-GET "
+    "whose 1..4 C-STORE sub-operations the raw peer answers, the A-RELEASE-RQ leaving in the same segment as its k-th C-STORE response, "
+    "k = 0..n, i.e. during the sub-operations), the acceptor handlers' result "
     "counts and virtual delays, and a schedule (fifo/random/pct + preemptions). The real acceptor (AssociationServer -> Association -> DUL) runs "
     "under the E4 cooperative scheduler with virtual time. Oracle: the peer receives A-RELEASE-RP before the network timeout could fire, "
     "pynetdicom sends no A-ABORT, the acceptor association ends released with exactly one EVT_RELEASED and its socket closed. "
@@ -15,7 +17,10 @@ RULE = (
 ASSUMPTIONS = [
     "E4 substitution table (engines/dsched.py): interleavings at blocking-call / watched-function-entry granularity, modelled TCP",
     "handlers are well behaved (return Success / yield Pending results, never abort), so any A-ABORT on the wire is pynetdicom's own",
-    "timeouts: acse 3, dimse 3, network 8 virtual seconds; handler delays total <= 1.5 s; the peer waits 5 s for the release response",
+    "timeouts: acse 3, dimse 3, network 8 virtual seconds; handler delays total <= 1.5 s (C-GET: <= 2.4 s); the peer waits 5 s for the release response",
+    "C-GET cases: the handler pauses 0.3/0.6 s before every result, so the release request has been received before pynetdicom would start the "
+    "next sub-operation; a release request that crosses a C-STORE sub-operation request (which the released peer would never answer, so that "
+    "pynetdicom itself aborts at the DIMSE timeout) is outside the statement ('and pynetdicom does not itself abort') and not generated",
 ]
 SHARDS = {"quick": 1, "thorough": 16}
 
@@ -28,12 +33,12 @@ def check_release(ctx, sc):
         raise HarnessError(f"raw peer script failed: {peer.error}")
     rel_t = [t for t, k in peer.log if k == "send" and False]
     # time at which the release request was written (last 'send' op of the script)
-    sends = [t for t, k in peer.log if k == "send"]
+    sends = [t for t, k in peer.log if k in ("send", "tail")]
     t_rel = sends[-1] if sends else None
     hl = out["handler_log"]
     starts = [e[-1] for e in hl if e[0] == "handler"]
     yields = [e[-1] for e in hl if e[0] == "yield"]
-    in_handler = bool(starts) and t_rel is not None and any(s <= t_rel for s in starts) and (any(y >= t_rel for y in yields) or (sc["meta"]["last_kind"] in ("echo", "store") and sc["meta"]["delay"] > 0 and sc["meta"]["read_before_release"] == 0))
+    in_handler = bool(starts) and t_rel is not None and any(s <= t_rel for s in starts) and (any(y >= t_rel for y in yields) or (sc["meta"]["last_kind"] in ("echo", "store") and sc["meta"]["delay"] > 0 and sc["meta"]["read_before_release"] == 0) or (sc["meta"]["last_kind"] == "get" and sc["meta"]["read_before_release"] < (sc["meta"].get("n_get") or 0)))
     classes = [f"reqs={sc['meta']['nreq']}", "last=" + str(sc["meta"]["last_kind"]), sc["schedule"]["policy"], out["how"]]
     if in_handler:
         classes.append("release-during-handler")
@@ -93,34 +98,52 @@ def strategy(ctx):
         kinds = [draw(st.sampled_from(["find", "find", "echo", "store"])) for _ in range(nreq)]
         n_find = draw(st.integers(0, 5))
         delay = draw(st.sampled_from([0, 0.1, 0.3]))
-        script = [["send", R.ref_encode(SC.RAW_RQ)], ["recv_pdu", 5]]
+        # one case in four ends with a C-GET whose C-STORE sub-operations the peer serves; the release request leaves in the same
+        # segment as the peer's k-th C-STORE response (k = 0: right after the C-GET request). The handler pauses before every
+        # result, so the request has been received when pynetdicom would start the next sub-operation (no unanswered sub-operation)
+        get = draw(st.integers(0, 3)) == 0
+        n_get = draw(st.integers(1, 4))
+        k_get = draw(st.integers(0, n_get))
+        delay_get = draw(st.sampled_from([0.3, 0.6]))
+        script = [["send", R.ref_encode(SC.RAW_RQ_GET if get else SC.RAW_RQ)], ["recv_pdu", 5]]
         read_before = 0
+        if get:
+            kinds = kinds[:1] + ["get"]
+            nreq = len(kinds)
         for i, k in enumerate(kinds):
+            if k == "get":
+                script.append(["send", SC.dimse_bytes("get", i + 1)])
+                script.append(["substore", k_get, 8, R.ref_encode(R.ReleaseRQ())])
+                read_before = k_get
+                continue
             script.append(["send", SC.dimse_bytes(k, i + 1, nbytes=draw(st.sampled_from([10, 3000])), max_pdu=draw(st.sampled_from([16382, 64])))])
             expected = (n_find + 1) if k == "find" else 1
             last = i == len(kinds) - 1
             nread = draw(st.integers(0, expected)) if last else expected
+            if get:
+                nread = 0  # everything is read, message by message, by the sub-operation loop that follows the C-GET request
             if last:
                 read_before = nread
             for _ in range(nread):
                 script.append(["recv_pdu", 8])
-        if draw(st.booleans()):
-            script.append(["sleep", draw(st.sampled_from([0.01, 0.2, 1.0]))])
-        script.append(["send", R.ref_encode(R.ReleaseRQ())])
+        if not get:
+            if draw(st.booleans()):
+                script.append(["sleep", draw(st.sampled_from([0.01, 0.2, 1.0]))])
+            script.append(["send", R.ref_encode(R.ReleaseRQ())])
         script.append(["recv_until_close", 5])
         policy = draw(st.sampled_from(["fifo", "random", "random", "pct"]))
         pre = draw(st.lists(st.tuples(st.integers(0, 1500), st.integers(0, 5)), max_size=6))
         return {
             "timeouts": {"acse": 3, "dimse": 3, "network": 8},
             "max_steps": 20000,
-            "acceptor": {"kind": "pynetdicom", "handlers": {"find": {"n": n_find, "delay": delay}, "echo": {"delay": delay}, "store": {"delay": delay}}},
+            "acceptor": {"kind": "pynetdicom", "handlers": dict({"find": {"n": n_find, "delay": delay}, "echo": {"delay": delay}, "store": {"delay": delay}}, **({"get": {"n": n_get, "delay": delay_get}} if get else {}))},
             "requestors": [{"kind": "raw", "script": script}],
             "schedule": {"policy": policy, "seed": draw(st.integers(0, 10**6)), "preemptions": [list(p) for p in pre]},
-            "meta": {"nreq": nreq, "last_kind": kinds[-1] if kinds else None, "n_find": n_find, "delay": delay, "read_before_release": read_before},
+            "meta": {"nreq": nreq, "last_kind": kinds[-1] if kinds else None, "n_find": n_find, "delay": delay_get if get else delay, "read_before_release": read_before, "n_get": n_get if get else None},
         }
 
     return sc()
 
 
 def run(ctx):
-    ctx.hyp("release", strategy(ctx), 150 if ctx.quick else 1000)
+    ctx.hyp("release", strategy(ctx), 300 if ctx.quick else 1500)
